@@ -50,6 +50,10 @@ class C19(Prop):
     def generate(self, rng, tier):
         cases = []
         readers = ["csv_path", "csv_stream", "xlsx_path", "xlsx_bytes", "load_files"]
+        # a workbook loaded through load_files whose include directive holds a number instead of a text: the
+        # error comes out of the include handling, not out of a table
+        for n in (1, 2, 4):
+            cases.append({"reader": "load_xlsx_badinclude", "n": n + 1, "k": n + 2, "mode": "exhaust", "fault": n})
         for rd in readers:
             for n in (1, 2, 3, 5) if tier == "quick" else (1, 2, 3, 4, 5, 7):
                 for k in range(0, n + 1):
@@ -68,6 +72,20 @@ class C19(Prop):
     def _make_source(self, case, d):
         n, fault = case["n"], case["fault"]
         rd = case["reader"]
+        if rd == "load_xlsx_badinclude":
+            import openpyxl
+
+            wb = openpyxl.Workbook()
+            ws = wb.active
+            for i in range(n - 1):
+                for r in ([f"**t{i}"], ["all"], ["c"], ["-"], [i], []):
+                    ws.append(r)
+            for r in (["***include"], [12345], []):
+                ws.append(r)
+            path = os.path.join(d, "data.xlsx")
+            wb.save(path)
+            wb.close()
+            return path
         if rd.startswith("csv") or rd == "load_files":
             path = os.path.join(d, "data.csv")
             with open(path, "w") as f:
@@ -107,6 +125,8 @@ class C19(Prop):
                 elif rd == "xlsx_bytes":
                     stream = open(path, "rb")
                     gen = read_excel(stream)
+                elif rd == "load_xlsx_badinclude":
+                    gen = load_files([path])
                 else:
                     gen = load_files([path], csv_sep=";")
                 own = lambda: len([p for p in open_fds(d)]) - (1 if stream is not None and not stream.closed else 0)
@@ -223,7 +243,7 @@ class C19(Prop):
             if obs.get("caller_stream_closed"):
                 fails.append("caller-stream: the writer closed the caller's stream")
             return fails
-        owns = case["reader"] in ("csv_path", "xlsx_path", "load_files")
+        owns = case["reader"] in ("csv_path", "xlsx_path", "load_files", "load_xlsx_badinclude")
         if obs["before_first_next"] != 0:
             fails.append("early-open: a file is open before the first block is requested")
         for kind, n, how in obs["events"]:
@@ -245,7 +265,7 @@ class C19(Prop):
     def to_coq(self, case, obs):
         if "writer" in case or "harness_exc" in obs:
             return None
-        owns = case["reader"] in ("csv_path", "xlsx_path", "load_files")
+        owns = case["reader"] in ("csv_path", "xlsx_path", "load_files", "load_xlsx_badinclude")
         evs = []
         for kind, n, how in obs["events"]:
             evs.append(g_pair({"next": "GNext", "close": "GClose", "drop": "GDrop"}[kind], g_nat(n)))
